@@ -80,9 +80,11 @@ type formOwnedPort struct {
 
 func (fop formOwnedPort) close(p *Port) {
 	if fop.File {
+		verifTraceC18("close-file", p.File)
 		p.File.Close()
 	}
 	if fop.Chan {
+		verifTraceC18("close-chan", p.Chan)
 		close(p.Chan)
 	}
 }
@@ -107,6 +109,7 @@ func (op *pipelineOp) exec(fm *Frame) Exception {
 
 	var wg sync.WaitGroup
 	wg.Add(nforms)
+	verifTraceC18("pipeline", &wg, nforms, op.bg)
 	excs := make([]Exception, nforms)
 
 	var nextIn *Port
@@ -114,6 +117,7 @@ func (op *pipelineOp) exec(fm *Frame) Exception {
 	// For each form, create a dedicated evalCtx and run asynchronously
 	for i, form := range op.forms {
 		newFm := fm.Fork()
+		verifTraceC18("stage", &wg, i, newFm)
 		var fops []formOwnedPort
 		inputIsPipe := i > 0
 		outputIsPipe := i < nforms-1
@@ -144,20 +148,28 @@ func (op *pipelineOp) exec(fm *Frame) Exception {
 				File: reader, Chan: ch,
 				// Store in input port for ease of retrieval later
 				sendStop: sendStop, sendError: sendError, readerGone: readerGone}
+			verifTraceC18("link", &wg, i, ch, writer, reader)
 		}
 		f := func(form *formOp, fops []formOwnedPort, pexc *Exception) {
+			verifTraceC18("stage-start", newFm)
 			exc := form.exec(newFm, &fops)
+			verifTraceC18("stage-ret", newFm, exc)
 			if exc != nil && !(outputIsPipe && isReaderGone(exc)) {
 				*pexc = exc
 			}
+			verifTraceC18("stage-exc", newFm, *pexc)
 			if inputIsPipe {
+				verifTraceC18("set-err", newFm)
 				*input.sendError = errs.ReaderGone{}
+				verifTraceC18("close-stop", newFm)
 				close(input.sendStop)
+				verifTraceC18("store-gone", newFm)
 				input.readerGone.Store(true)
 			}
 			for i, fop := range fops {
 				fop.close(newFm.ports[i])
 			}
+			verifTraceC18("wg-done", newFm)
 			VerifTrace(fm, "pipe.formdone", vpid, fm.background)
 			wg.Done()
 		}
@@ -186,6 +198,7 @@ func (op *pipelineOp) exec(fm *Frame) Exception {
 				}
 			}
 		}()
+	verifTraceC18("wait-ret", &wg, excs)
 		return nil
 	}
 	wg.Wait()
